@@ -106,10 +106,15 @@ def main() -> int:
     if do_confirm:
         summary["confirm"] = confirm(seed)
         print("confirm:", json.dumps(summary["confirm"])[:600])
+        (seed / "confirm.json").write_text(json.dumps(summary["confirm"], indent=1))
         if not summary["confirm"].get("confirmed"):
             print("NOT CONFIRMED")
             print(json.dumps(summary))
             return 3
+        if "--confirm-only" in args:
+            return 0
+    elif (seed / "confirm.json").exists():
+        summary["confirm"] = json.loads((seed / "confirm.json").read_text())
     res = run_checks(seed, props)
     summary["checks"] = res
     if "error" in res:
